@@ -156,6 +156,14 @@ def targeted_cases(chk):
                            ["insert", "into", False, ["fin"], None, select([item(col("k")), item(col("v"))], [from_expr(table("mid"))]), False],
                            ["insert", "into", False, [a], None, select([item(col("k"))], [from_expr(table(a))]), False],
                            ["query", select([item(col("k"))], [from_expr(table(c)), from_expr(table("lonely"))]), False]])
+    # several sources, intermediates and targets (the three sorted table lists)
+    for names in (["a", "b", "c", "d", "e", "f", "g", "h", "i"], ["t1", "t2", "t3", "t4", "t5", "t6", "t7", "t8", "t9"],
+                  ["north", "south", "east", "west", "up", "down", "left", "right", "mid"]):
+        s1, s2, s3, m1, m2, m3, f1, f2, f3 = names
+        one = lambda t: select([item(col("k"))], [from_expr(table(t))])
+        add("roles/many", [["insert", "into", False, [m], None, one(s_), False] for s_, m in ((s1, m1), (s2, m2), (s3, m3))]
+            + [["insert", "into", False, [f], None, one(m), False] for m, f in ((m1, f1), (m2, f2), (m3, f3))]
+            + [["insert", "into", False, [m2], None, one(m1), False]])
     # several column paths with the same end points (order of the list `get_column_lineage` returns)
     for (a, b) in [("t1", "t9"), ("src", "dst"), ("x", "y")]:
         add("paths/diamond", [
@@ -172,6 +180,20 @@ def targeted_cases(chk):
         add("export/same-subquery-two-aliases", [["insert", "into", False, [b], None,
                                                   select([item(col("v", "m"), "v1"), item(col("v", "n"), "v2")],
                                                          [from_expr(derived(same, "m"), [join(derived(copy.deepcopy(same), "n"), eq(col("v", "m"), col("v", "n")))])]), False]])
+    return out
+
+
+def targeted_text_cases():
+    """shapes outside the typed AST, as text: two datasets written by one statement (vertica: the target of the INSERT and the target
+    of swap_partitions_between_tables).  The unchanged code refuses them with a library exception under every seed."""
+    out = []
+    for (a, b, x) in [("staging", "final", "x"), ("s1.a", "s1.b", "t"), ("p_old", "p_new", "log"), ("src", "dst", "audit"),
+                      ("m", "n", "o"), ("alpha", "beta", "gamma")]:
+        swap = f"insert into {x} select swap_partitions_between_tables('{a}', 1, 2, '{b}') as c1"
+        out.append({"kind": "targeted", "tag": "two-writes/single", "case": {"sql": swap, "dialect": "vertica"}})
+        out.append({"kind": "targeted", "tag": "two-writes/session",
+                    "case": {"sql": swap + f";\ninsert into y select * from {x};\ninsert into z select * from {b}", "dialect": "vertica",
+                             "metadata": {"s9.unrelated": ["q"]}}})
     return out
 
 
@@ -248,14 +270,14 @@ def generated_cases(chk):
     out = []
     thorough = chk.tier == "thorough"
     R = gensql.Rand(chk.rng, max_depth=3 if thorough else 2)
-    n_stmt = 1500 if thorough else 260
+    n_stmt = 800 if thorough else 220
     for i in range(n_stmt):
         s = R.stmt(chk.rng.choice([1, 2, 2, 3]) if thorough else chk.rng.choice([1, 2, 2]))
         if i % 2:
             s = starify(s, chk.rng)
         out.append({"kind": "gen-stmt", "tag": "star-heavy" if i % 2 else "plain", "ast": [s], "metadata": None,
                     "dialect": GEN_DIALECTS[i % len(GEN_DIALECTS)]})
-    n_script = 900 if thorough else 160
+    n_script = 500 if thorough else 130
     for i in range(n_script):
         stmts, md = gen_script(R, chk.rng, with_md=(i % 2 == 1))
         out.append({"kind": "gen-script", "tag": "metadata" if md else "plain", "ast": stmts, "metadata": md,
@@ -270,7 +292,7 @@ def build_inputs(chk, drv):
         inputs.append({"kind": "corpus", "tag": c["origin"], "case": {k: v for k, v in c.items() if k != "origin"}})
     tp = corpus11.tpcds(common.REPO)
     if chk.tier != "thorough":
-        tp = chk.rng.sample(tp, min(10, len(tp)))
+        tp = chk.rng.sample(tp, min(8, len(tp)))
     for c in tp:
         inputs.append({"kind": "tpcds", "tag": c["origin"], "case": {"sql": c["sql"], "dialect": c["dialect"]}})
     gen = targeted_cases(chk) + generated_cases(chk)
@@ -286,6 +308,7 @@ def build_inputs(chk, drv):
             case["metadata"] = g["metadata"]
         g["case"] = case
         inputs.append(g)
+    inputs += targeted_text_cases()
     for i, x in enumerate(inputs):
         x["id"] = i
     return inputs, hstats
@@ -809,8 +832,8 @@ def run(chk):
 
 def correspondence(chk, drv, inputs, res, seeds, cl):
     """generated inputs: every seed's answer is one of the model's outcomes"""
-    out = {"compared": 0, "agree": 0, "skipped_item_subquery": 0, "skipped_rejected": 0, "order_sensitive_in_model": 0,
-           "disagree_established": 0, "disagree_other": 0}
+    out = {"compared": 0, "agree": 0, "skipped_item_subquery": 0, "skipped_rejected": 0, "skipped_multi_rename": 0,
+           "skipped_sqlparse_analyzer": 0, "order_sensitive_in_model": 0, "disagree_established": 0, "disagree_other": 0}
     gen = [x for x in inputs if "ast" in x]
     reqs = []
     for x in gen:
@@ -833,6 +856,13 @@ def correspondence(chk, drv, inputs, res, seeds, cl):
         if gensql.item_has_subq(x["ast"]):
             out["skipped_item_subquery"] += 1
             continue
+        if x["case"]["dialect"] == "non-validating":
+            out["skipped_sqlparse_analyzer"] += 1      # the model is a model of the sqlfluff extractors
+            continue
+        if max((res[s][x["id"]].get("_meta") or {}).get("rename_pairs", 0) for s in seeds) > 1:
+            # D10 class: the model has the pair order as a parameter of `buildWith`, not of the driver's `sql` command
+            out["skipped_multi_rename"] += 1
+            continue
         outs = []
         for a in ans[2 * gi: 2 * gi + 2]:
             o = a.get("out") or {}
@@ -849,7 +879,7 @@ def correspondence(chk, drv, inputs, res, seeds, cl):
         if ok:
             out["agree"] += 1
             continue
-        established = x["kind"] == "gen-stmt" and not x.get("metadata") and x["case"]["dialect"] != "non-validating"
+        established = x["kind"] == "gen-stmt" and not x.get("metadata")
         out["disagree_established" if established else "disagree_other"] += 1
         if len(examples) < 3:
             examples.append({"sql": x["case"]["sql"][:400], "dialect": x["case"]["dialect"], "metadata": x.get("metadata"),
